@@ -75,8 +75,17 @@ def main():
         done = min(done, total - 1) if total else 0
     ctx.assumptions = common.parse_assumptions(assumptions_out)
 
+    # 3b. thorough tier: independent re-check of the property's closure (coqchk -o), concurrently
+    chk = common.coqchk_start(props_file) if (tier == "thorough" and proof_ok) else None
+
     # 4. the property's own exploration of /repo: correspondence + oracle
     mod.run(ctx)
+
+    coqchk_report = None
+    if chk is not None:
+        chk_ok, coqchk_report = common.coqchk_collect(chk)
+        if not chk_ok:
+            raise CheckBroken("coqchk -o does not accept the property's closure: " + json.dumps(coqchk_report)[:1500])
 
     # 5. decide
     wall = time.time() - t0
@@ -89,6 +98,8 @@ def main():
         "tables_regenerated": tables,
         "assumptions_printed": assumptions_out[-6000:],
     }
+    if coqchk_report is not None:
+        proof_info["coqchk"] = coqchk_report
     rc = 0
     lines = []
     for fid, (k, example) in sorted(ctx.known_seen.items()):
